@@ -137,6 +137,21 @@ def table() -> dict[str, Prop]:
              [PL.rule_tables, TK.rule_life, PL.rule_accum],
              not_decided="literalness in each of the seven inline contexts for every text t (behaviour of the inline rules on runtime "
                          "strings), in particular the escape handling inside link titles / destinations"))
+    from .rules import switch_rules as SW
+    reg(Prop("C10", "switch discipline: compiled chains contain exactly the enabled rules filtered by chain (CHAIN); token kind -> "
+             "producing rules equals the reviewed table, rule functions are reached only through dispatch, and the zero preset can "
+             "only produce paragraph / text (PRODUCERS); html kinds are pushed only under a true test of option html (RAW); the "
+             "facade applies each rule-management request to all four rulers with the same names (FANOUT); item access, attribute "
+             "read and attribute write of an option hit one cell (OPTKEY); every effect of table / strikethrough is dominated by "
+             "its trigger test (TRIG); option-gated statements are confined to their documented addition (GATE); every empty-tag "
+             "kind - `definition` included - has a render rule (RENDEX)",
+             [RR.rule_chain, SW.rule_producers, RN.rule_raw, SW.rule_fanout, SW.rule_optkey, SW.rule_trig, SW.rule_gate, RN.rule_rendex],
+             not_decided="identity of the token stream with an extension on vs off for all trigger-free inputs (decided is only that "
+                         "no effect escapes the trigger test), and equality of env / HTML under inline_definitions / store_labels"))
+    # rules shared across properties (appended here because their modules are imported above)
+    props["C11"].rules.append(SW.rule_fanout)          # the same coherence through the facade
+    props["C14"].rules.append(SW.rule_fanout)          # reset_rules restores all four rulers with enableOnly
+    props["C13"].rules.append(EF.rule_alias)           # class-level mutables are shared between concurrent parses too
     return props
 
 
@@ -148,6 +163,9 @@ NOT_APPLICABLE["C06"] = ("a metamorphic relation between the parses of two diffe
                          "frames) are claimed under C07 and C17 instead")
 
 TECHNIQUE = {
+    "C10": "truth-table simulation of the chain-compilation loop; call-graph computation of token-kind producers against a "
+           "reviewed table; edge-dominance of effects by trigger / option tests on per-function CFGs; sibling agreement of the "
+           "facade's fan-out and of the option accessors",
     "C08": "provenance (taint-style) analysis over reaching definitions with an allowed-transform grammar; unit (column vs "
            "character) typing of getLines arguments; predicate-dominance check of the padding strip",
     "C09": "set equality of character tables extracted from literals and regex ASTs; traversal-coverage analysis of the "
